@@ -985,6 +985,10 @@ ADDENDA = {
            "instant or the epoch, the due time is handed on as seconds with the same action and state, nothing else of virtual time is overridden.",
     "C34": " ThreadPoolScheduler: one executor, a thread factory whose startable submits exactly the target once to it (executor contract assumed), "
            "cancel cancels that submission; nothing else overridden.",
+    "C05": " The indexed forms that are compositions (indexed.py): zip_with_iterable_ by subscribe + one arbitrary element (one iterator per "
+           "subscription; exactly the pair (x, next item) or completion when exhausted), map_indexed_ = zip_with_iterable(infinite()) | "
+           "starmap_indexed(m or first), starmap_indexed = map(t -> m(*t)), skip_while_indexed_ = map_indexed(pair) | skip_while(p(*t)) | map(t[0]), "
+           "pluck_attr_ = map(getattr): wiring over the K1 contracts of map / skip_while.",
     "C25": " The action of a Disposable is user code: the monitor harness also runs the path on which it raises - the exception may leave "
            "dispose(), every critical section on the way out still keeps the rely (is_disposed never goes back to False) and the claimed "
            "token stays spent (no second run).",
